@@ -139,6 +139,11 @@ var c35Alterations = []c35Alteration{
 
 func TestC35(t *testing.T) {
 	floors := map[string]float64{"served": 0.9, "lean": 0.25, "non-lean": 0.25}
+	for _, a := range []string{"aat-signature-corrupted", "aat-unstaked-application", "aat-client-key-replaced", "client-signature-by-unnamed-key",
+		"request-hash-of-other-payload", "payload-data-changed-after-hashing", "servicer-key-of-in-session-peer", "chain-not-hosted-by-node",
+		"chain-not-staked-by-app", "chain-session-without-this-node", "session-height-beyond-tolerance", "meta-height-above-allowance", "entropy-negative"} {
+		floors["alt:"+a] = 0.1
+	}
 	harness.Check(t, "C35",
 		"per case: a chain-simulator world (self + 1-3 in-session peers, SessionNodeCount = all 0001 stakers, blocks/session 2-4, ctx anywhere in the 2nd-4th session, "+
 			"lean / non-lean node mode, session sync allowance 0-1), the real keeper's HandleRelay with 24 relays from the relay factory, each valid or with exactly one alteration "+
